@@ -172,6 +172,9 @@ class ServeMultiPeriodManifest(RequestHandlerBase):
         dash = ManifestContext(
             manifest=current_manifest, options=options, stream=None,
             multi_period=current_mps)
+        if not dash.periods:
+            # e.g. an availabilityStartTime that is later than now
+            return flask.make_response('No Period is available', 404)
         context = cast(ManifestTemplateContext, self.create_context(
             title=current_mps.title, mpd=dash, options=options,
             mode=mode))
